@@ -50,9 +50,73 @@ pub fn panic_msg(e: Box<dyn std::any::Any + Send>) -> String {
     }
 }
 
+fn fnv64(parts: &[&str]) -> u64 {
+    let mut h: u64 = 0xcbf29ce484222325;
+    for p in parts {
+        for b in p.as_bytes().iter().chain([0u8].iter()) {
+            h ^= *b as u64;
+            h = h.wrapping_mul(0x100000001b3);
+        }
+    }
+    h
+}
+
+static PATH_API_FILES: AtomicUsize = AtomicUsize::new(0);
+/// how many distinct (query | schema) files one process hands to the path API (the library keeps every
+/// parsed file in memory for the life of the process)
+const PATH_API_BUDGET: usize = 6000;
+
+/// Write `text` to the content-addressed file `<prefix>_<hash>.<ext>` of this process's scratch
+/// directory (a path therefore never changes its contents) and return the path.
+fn content_file(prefix: &str, ext: &str, text: &str) -> Option<PathBuf> {
+    let path = scratch_dir().join(format!("{}_{:016x}.{}", prefix, fnv64(&[text, ext]), ext));
+    match std::fs::read_to_string(&path) {
+        Ok(old) => {
+            if old == text {
+                Some(path)
+            } else {
+                None
+            }
+        }
+        Err(_) => {
+            if PATH_API_FILES.fetch_add(1, Ordering::SeqCst) >= PATH_API_BUDGET {
+                return None;
+            }
+            std::fs::write(&path, text).ok()?;
+            Some(path)
+        }
+    }
+}
+
+/// Call the library the way `#[derive(GraphQLQuery)]` and the CLI do: through the PATH interface
+/// (`generate_module_token_stream`), with its process-wide caches of parsed query and schema files.
+/// Files are content-addressed, so one query text keeps one path through the whole run while the
+/// schemas it meets change (edits, renderings, option variants): state that survives between calls
+/// and is keyed by too little shows up in every check that generates code, not only in C08.
+/// A query text graphql_parser refuses goes through the string interface (the path interface
+/// unwraps the parse error; the outcome class of unparsable documents is observed there), as does
+/// everything beyond the per-process budget of cached files.
+pub fn generate(schema_text: &str, ext: &str, query_text: &str, opts: &Opts) -> Outcome {
+    let parses = graphql_parser::parse_query::<String>(query_text).is_ok();
+    if parses {
+        if let (Some(qp), Some(sp)) = (content_file("q", "graphql", query_text), content_file("s", ext, schema_text)) {
+            let o = opts.clone();
+            let r = std::panic::catch_unwind(move || {
+                graphql_client_codegen::generate_module_token_stream(qp, &sp, o.to_lib()).map_err(|e| e.to_string())
+            });
+            return match r {
+                Ok(Ok(ts)) => Outcome::Ok(ts),
+                Ok(Err(e)) => Outcome::Err(e),
+                Err(p) => Outcome::Panic(panic_msg(p)),
+            };
+        }
+    }
+    generate_from_string(schema_text, ext, query_text, opts)
+}
+
 /// Write the schema to a fresh file (fresh path => no interaction with the process-wide cache)
 /// and call the library on a query string.
-pub fn generate(schema_text: &str, ext: &str, query_text: &str, opts: &Opts) -> Outcome {
+pub fn generate_from_string(schema_text: &str, ext: &str, query_text: &str, opts: &Opts) -> Outcome {
     let n = COUNTER.fetch_add(1, Ordering::SeqCst);
     let path = scratch_dir().join(format!("schema_{}.{}", n, ext));
     std::fs::write(&path, schema_text).unwrap();
